@@ -1369,6 +1369,8 @@ def term_to_h(H, t, depth=0):
         return ["div", rec(t.arg1), rec(t.arg)]
     if t.is_comb("of_nat", 1):
         if t.get_type() == Ty.RealType:
+            if t.arg.is_var() and not t.arg.name.startswith("%b%"):
+                return ["ofnatvar", sexp.enc(t.arg.name)]
             return ["ofnat", rec(t.arg)]
         return "unsup"
     if t.is_comb("max", 2):
